@@ -6,7 +6,8 @@
    with the destination holding the nodes d0.  Quantifying over tr quantifies over every
    interleaving of the visible events of every schedule. *)
 From Oras Require Import Base.Prelude Generated.GC01 Model.CopySpec Model.CopyTop Model.CopyOpt
-  Model.CopyCancel Proofs.CopySpec Proofs.CopyAcct Proofs.CopyOpt Proofs.CopyCancel.
+  Model.CopyCancel Model.CopyLinks Proofs.CopySpec Proofs.CopyAcct Proofs.CopyOpt Proofs.CopyCancel
+  Proofs.CopyLinks.
 Local Open Scope nat_scope.
 
 (* Success => every node reachable from the root (foreign layers cut) is in the
@@ -238,3 +239,41 @@ Example C01_examples_cancellation :
                     [Ev (ExB 3); Ev (ExE 3 true); Ev (TagB 3); Cancel; Ev (TagE 3); Ev (Ret true)] = Some (s, full) /\
                   returned (cs_st s) = Some true /\ tag (cs_st s) = Some 3).
 Proof. exact examples_cancellation. Qed.
+
+(* ---- the links (Model/CopyLinks.v) ----
+   The successor function is no longer only a parameter: [successors] applies the link schema
+   that tools/gosrc2v regenerates from the five cases of content.Successors (successors_schema)
+   to a manifest's decoded fields; [linked] is the property's own link relation ("config,
+   layer, blob, manifest-list and subject links", per media type as the OCI / Docker
+   specifications define them).  The two coincide, for every media type and every field
+   contents; an edit to content.Successors that drops, adds or conditions a link breaks the
+   translation or this theorem. *)
+Theorem C01_link_schema_is_spec :
+  forall (f : mfields) (x : node), linked f x <-> In x (successors f).
+Proof. exact schema_is_spec. Qed.
+Print Assumptions C01_link_schema_is_spec.
+
+(* descriptor.IsManifest (what copyGraph reads through the caching proxy) names exactly the media
+   types that content.Successors decodes; none of them is a foreign layer type *)
+Theorem C01_manifest_types_have_schema :
+  forall mt, is_manifest_mt mt = true <-> lookup_schema successors_schema mt <> None.
+Proof. exact schema_labels_are_manifests. Qed.
+Print Assumptions C01_manifest_types_have_schema.
+
+Theorem C01_manifest_not_foreign :
+  forall mt, is_manifest_mt mt = true -> is_foreign_mt mt = false.
+Proof. exact manifest_not_foreign. Qed.
+Print Assumptions C01_manifest_not_foreign.
+
+(* closure stated over the property's links, with the content universe built from the nodes'
+   fields by the generated tables (successors, IsManifest, IsForeignLayer): success => every node
+   reachable through config / layer / blob / manifest-list / subject links, foreign layers cut, is
+   in the destination *)
+Theorem C01_closure_over_links :
+  forall (n : nat) (flds : node -> mfields) (dkey : node -> nat) (c : cfg) (d0 : list node)
+         (tr : list event) (st : state),
+    closed_nodes (graph_of n flds dkey) d0 -> mt_consistent (graph_of n flds dkey) ->
+    accepts (graph_of n flds dkey) c d0 tr = Some st -> returned st = Some true ->
+    forall x, lreach flds (c_root c) x -> has (graph_of n flds dkey) (dst st) x = true.
+Proof. exact closure_links. Qed.
+Print Assumptions C01_closure_over_links.
